@@ -21,7 +21,7 @@ def Register : List String := ["mu.Lock", "mu.Unlock", "findOldestConnectionLock
 def Remove : List String := ["mu.Lock", "mu.Unlock", "removeConnectionLocked"]
 def RemoveControlConnection : List String := ["clientRegistry.GetByConnID", "clientRegistry.Remove", "cloudControl.DisconnectClientIfMatch"]
 def TunnelRemove : List String := ["mu.Lock", "mu.Unlock", "delete", "delete"]
-def Unregister : List String := ["mu.Lock", "mu.Unlock", "delete"]
+def Unregister : List String := ["mu.Lock", "mu.Unlock", "unindexLocked", "delete"]
 def UpdateAuth : List String := ["mu.Lock", "mu.Unlock", "unindexLocked"]
 def adapterCleanupConnection : List String := ["session.CloseConnection", "closer.Close"]
 def adapterHandleConnection : List String := ["cleanupConnection", "initializeConnection", "connectionReadLoop"]
@@ -42,7 +42,7 @@ def DropStaleIndex : List String := ["if conn == nil", "range r.clientIDMap", "i
 def KickOldConnection : List String := ["if oldConn != nil && oldConn.ConnID != newConnID", "if connInfo != nil", "if sendKickFn != nil && oldConnForCallback != nil", "if connInfo.stream != nil"]
 def Register : List String := ["if conn == nil", "if conn.ConnID == \"\"", "if r.maxConnections > 0 && len(r.connMap) >= r.maxConnections", "if oldestConn != nil", "if existing, exists := r.connMap[conn.ConnID]; exists", "if conn.Authenticated && conn.ClientID > 0"]
 def RemoveControlConnection : List String := ["if conn != nil", "if authenticated && clientID > 0 && s.cloudControl != nil", "if err != nil", "if disconnected"]
-def Unregister : List String := ["if _, exists := r.connMap[connID]; !exists"]
+def Unregister : List String := ["if !exists"]
 def UpdateAuth : List String := ["if !exists"]
 def adapterCleanupConnection : List String := ["if state.streamConn != nil", "if state.streamConn != nil && b.session != nil", "if state.shouldCloseConn", "if closer, ok := conn.(interface{ Close() error }); ok"]
 def findOldestConnectionLocked : List String := ["range r.connMap", "if oldestConn == nil || conn.CreatedAt.Before(oldestTime)"]
